@@ -3,7 +3,8 @@
 From Coq Require Import List ZArith Lia.
 From Tevec Require Import Base.Prelude Model.Parse Spec.DurationC18 Proofs.Parse.
 From Tevec Require Import Spec.CalendarC18 Model.ParseDT Proofs.CalendarC18 Proofs.ParseDT.
-From Tevec Require Import Proofs.ParseRejects Proofs.ParseWs Proofs.ParseDT2.
+From Tevec Require Import Proofs.ParseRejects Proofs.ParseWs Proofs.ParseDT2 Proofs.Audit18.
+From Tevec Require Model.Time.
 Import ListNotations.
 Local Open Scope Z_scope.
 
@@ -260,6 +261,205 @@ Example C18_datetime_example :
   dt_parse 1 (render fmt_default g) = Some (-1).
 Proof. vm_compute. repeat split. Qed.
 
+(* ==== the audit (notes/C18.md "Audit matrix"; Proofs/Audit18.v) ==================================================== *)
+(* ---- (4) the unit table: exactly the ten tokens, what each contributes -------------------------------------------- *)
+Theorem C18_unit_tokens : forall s u, unit_of s = Some u <-> s = unit_str u.
+Proof. exact unit_of_iff. Qed.
+Theorem C18_unit_tokens_distinct : forall u v, unit_str u = unit_str v -> u = v.
+Proof. exact unit_str_injective. Qed.
+Theorem C18_unit_token_shape :
+  forall s u, unit_of s = Some u -> (1 <= length s <= 2)%nat /\ Forall (fun c => 97 <= c <= 122) s.
+Proof. exact unit_of_some_shape. Qed.
+Theorem C18_unit_table :
+  forall t,
+    (t_months t, t_secs t, t_nsecs t) =
+    match t_unit t with
+    | Uns | Uus | Ums => (0, 0, tval t * unit_scale (t_unit t))
+    | Us | Um | Uh | Ud | Uw => (0, tval t * unit_scale (t_unit t), 0)
+    | Umo | Uy => (tval t * unit_scale (t_unit t), 0, 0)
+    end
+    /\ unit_scale Uns = 1 /\ unit_scale Uus = 1000 /\ unit_scale Ums = 1000000
+    /\ unit_scale Us = 1 /\ unit_scale Um = 60 /\ unit_scale Uh = 3600 /\ unit_scale Ud = 86400 /\ unit_scale Uw = 604800
+    /\ unit_scale Umo = 1 /\ unit_scale Uy = 12.
+Proof. exact unit_table. Qed.
+
+(* ---- (5) (2) without its range hypotheses: on EVERY well-formed string the scanner is the checked fold over the
+        terms — `i64::from_str` on the number, then the closure of the unit, in this order, first failure wins; the three
+        range premises of C18_wellformed are exactly "run_terms = Some" and "finish <> Err" ------------------------- *)
+Theorem C18_wellformed_run :
+  forall ts, Forall wf_term ts -> parse (render_terms ts) = run_result (run_terms (mk_accs 0 0 0) ts).
+Proof. exact parse_wellformed_run. Qed.
+
+Theorem C18_wellformed_ok_iff :
+  forall ts m ns, Forall wf_term ts ->
+    (parse (render_terms ts) = POk m ns <->
+     exists a, run_terms (mk_accs 0 0 0) ts = Some a /\ finish a = POk m ns).
+Proof. exact parse_wellformed_ok_iff. Qed.
+
+Theorem C18_wellformed_err_iff :
+  forall ts, Forall wf_term ts ->
+    (parse (render_terms ts) = PErr <->
+     run_terms (mk_accs 0 0 0) ts = None \/ exists a, run_terms (mk_accs 0 0 0) ts = Some a /\ finish a = PErr).
+Proof. exact parse_wellformed_err_iff. Qed.
+
+Theorem C18_number_overflow_err :
+  forall ts1 t ts2, Forall wf_term (ts1 ++ t :: ts2) -> in_i64 (tval t) = false ->
+    parse (render_terms (ts1 ++ t :: ts2)) = PErr.
+Proof. exact parse_number_overflow_err. Qed.
+
+Theorem C18_single_term :
+  forall t, wf_term t ->
+    parse (render_term t) =
+    if in_i64 (tval t)
+    then match apply_unit (t_unit t) (tval t) (mk_accs 0 0 0) with Some a => finish a | None => PErr end
+    else PErr.
+Proof. exact parse_single_term. Qed.
+
+(* ... and in the declarative vocabulary of (2): its three range premises are NECESSARY as well — a well-formed string is
+   accepted (with the sum of its terms) if and only if they hold, and is Err otherwise.  (2) + this = the exact acceptance
+   condition of every well-formed duration string *)
+Theorem C18_wellformed_iff :
+  forall ts, Forall wf_term ts ->
+    (parse (render_terms ts) = POk (sumf t_months ts) (fixed_ns ts)
+     <-> (Forall term_in_range ts /\ partial_sums_in_range ts /\ total_in_range ts))
+    /\ (parse (render_terms ts) = PErr
+        <-> ~ (Forall term_in_range ts /\ partial_sums_in_range ts /\ total_in_range ts)).
+Proof. exact parse_wellformed_iff. Qed.
+
+Theorem C18_wellformed_value_unique :
+  forall ts m ns, Forall wf_term ts -> parse (render_terms ts) = POk m ns ->
+    (Forall term_in_range ts /\ partial_sums_in_range ts /\ total_in_range ts)
+    /\ m = sumf t_months ts /\ ns = fixed_ns ts.
+Proof. exact parse_ok_ranges. Qed.
+
+(* ---- (6) sign runs; Debug / Display text is never a duration ------------------------------------------------------ *)
+Theorem C18_two_nondigit_head :
+  forall c1 c2 r, is_digit c1 = false -> is_digit c2 = false -> parse (c1 :: c2 :: r) = PErr.
+Proof. exact parse_two_nondigit_head. Qed.
+
+Theorem C18_sign_run_rejected :
+  forall s1 s2 r, (s1 = 43 \/ s1 = 45) -> (s2 = 43 \/ s2 = 45) -> parse (s1 :: s2 :: r) = PErr.
+Proof. exact parse_sign_run_rejected. Qed.
+
+Theorem C18_debug_text_is_not_a_duration :
+  (forall t, parse (time_debug t) = PErr) /\ (forall t, parse (time_display t) = PErr)
+  /\ (forall m ns, parse (td_debug m ns) = PErr) /\ parse nat_str = PErr.
+Proof. exact debug_text_is_not_a_duration. Qed.
+
+Theorem C18_time_display_is_debug : forall t, time_display t = time_debug t.
+Proof. exact time_display_is_debug. Qed.
+
+(* ---- (7) date-time text: where strftime panics; the default format with no hypothesis on the fields; NaT ---------- *)
+Theorem C18_strftime_panics_iff :
+  forall u items x k,
+    dt_format u items x = Panic k <-> (x <> i64_min /\ fields_of_instant u x = None /\ k = UnwrapNone).
+Proof. exact strftime_panics_iff. Qed.
+
+Theorem C18_strftime_default_parse_back :
+  forall u x text, unit_code u -> in_i64 x = true -> x <> i64_min ->
+    dt_format u fmt_default x = Ok text ->
+    parse_with u fmt_default text = Some x /\ dt_parse u text = Some x.
+Proof. exact strftime_default_parse_back. Qed.
+
+Theorem C18_debug_parse_back :
+  forall u x text, unit_code u -> in_i64 x = true -> x <> i64_min -> dt_debug u x = Ok text -> dt_parse u text = Some x.
+Proof. exact debug_parse_back. Qed.
+
+(* the default unit, unconditionally: every non-NaT i64 nanosecond timestamp is rendered (no panic) and read back *)
+Theorem C18_strftime_nano_total :
+  forall x, in_i64 x = true -> x <> i64_min ->
+    exists text, dt_format 3 fmt_default x = Ok text /\ dt_parse 3 text = Some x /\ dt_debug 3 x = Ok text.
+Proof. exact strftime_nano_total. Qed.
+
+Theorem C18_nat_text :
+  (forall u items, dt_format u items i64_min = Ok nat_str) /\ (forall u, dt_debug u i64_min = Ok nat_str)
+  /\ (forall u, dt_parse u nat_str = None)
+  /\ (forall u k, (k < 11)%nat -> parse_with u (fmt_k k) nat_str = None)
+  /\ (forall u, parse_with u fmt_default nat_str = None).
+Proof. exact nat_text. Qed.
+
+Theorem C18_listed_text_is_not_nat : forall k f, render (fmt_k k) f <> nat_str.
+Proof. exact listed_text_is_not_nat. Qed.
+
+Theorem C18_strftime_nat_iff : forall u k x, dt_format u (fmt_k k) x = Ok nat_str <-> x = i64_min.
+Proof. exact strftime_nat_iff. Qed.
+
+(* ---- (8) Time::parse with an explicit format (Model/ParseDT.v time_parse_with) ------------------------------------ *)
+Theorem C18_time_parse_hms :
+  forall h m s, 0 <= h <= 23 -> 0 <= m <= 59 -> 0 <= s <= 59 ->
+    time_parse_with fmt_hms (render fmt_hms (tfields h m s 0)) = Some ((h * 3600 + m * 60 + s) * giga)
+    /\ time_parse_with fmt_hms_compact (render fmt_hms_compact (tfields h m s 0)) = Some ((h * 3600 + m * 60 + s) * giga).
+Proof. exact time_parse_hms. Qed.
+
+Theorem C18_time_parse_hms_frac :
+  forall h m s ns, 0 <= h <= 23 -> 0 <= m <= 59 -> 0 <= s <= 59 -> 0 <= ns <= 999999999 ->
+    time_parse_with fmt_hms_f (render fmt_hms_f (tfields h m s ns)) = Some ((h * 3600 + m * 60 + s) * giga + ns).
+Proof. exact time_parse_hms_frac. Qed.
+
+Theorem C18_time_parse_leap_second :
+  time_parse_with fmt_hms [50;51;58;53;57;58;54;48] = Some 86400000000000
+  /\ time_parse_with fmt_hms_compact [50;51;53;57;54;48] = Some 86400000000000
+  /\ Time.time_as_cr 86400000000000 = None
+  /\ Time.time_hour 86400000000000 = Panic UnwrapNone /\ Time.time_second 86400000000000 = Panic UnwrapNone
+  /\ Time.time_with_hour 86400000000000 0 = None.
+Proof. exact time_parse_leap_second. Qed.
+
+(* ---- non-vacuity of the audit theorems ---------------------------------------------------------------------------- *)
+Definition ex_big : term := mk_term None [57;50;50;51;51;55;50;48;51;54;56;53;52;55;55;53;56;48;56] Us.  (* 2^63 s *)
+Example C18_ex_audit_run :
+  (* "1d9223372036854775808s": well formed, the second number does not fit an i64 -> Err; "1d" -> 1 day;
+     "9223372036854775807s" fits the i64 but not chrono's Duration -> Err by `finish` *)
+  Forall wf_term ([mk_term None [49] Ud] ++ ex_big :: []) /\ in_i64 (tval ex_big) = false
+  /\ parse (render_terms ([mk_term None [49] Ud] ++ ex_big :: [])) = PErr
+  /\ wf_term (mk_term None [49] Ud) /\ parse (render_term (mk_term None [49] Ud)) = POk 0 86400000000000
+  /\ run_terms (mk_accs 0 0 0) [mk_term None [57;50;50;51;51;55;50;48;51;54;56;53;52;55;55;53;56;48;55] Us]
+     = Some (mk_accs 0 9223372036854775807 0)
+  /\ finish (mk_accs 0 9223372036854775807 0) = PErr
+  /\ run_terms (mk_accs 0 0 0) [mk_term None [50;48;48;48;48;48;48;48;48;48;48;48;48;48;48] Uw] = None.
+Proof.
+  split; [repeat constructor; discriminate|]. split; [vm_compute; reflexivity|]. split; [vm_compute; reflexivity|].
+  split; [repeat constructor; discriminate|]. repeat split; vm_compute; reflexivity.
+Qed.
+
+Example C18_ex_audit_iff :
+  (* "2147483647mo1mo": every term in range, the running month sum is not -> the premises fail -> Err *)
+  let ts := [mk_term None [50;49;52;55;52;56;51;54;52;55] Umo; mk_term None [49] Umo] in
+  Forall wf_term ts /\ Forall term_in_range ts /\ ~ partial_sums_in_range ts /\ parse (render_terms ts) = PErr.
+Proof.
+  cbv zeta. split; [repeat constructor; discriminate|]. split; [repeat constructor|].
+  split; [|vm_compute; reflexivity].
+  intros H. destruct (H 2%nat ltac:(cbn; lia)) as [H1 _]. vm_compute in H1. discriminate H1.
+Qed.
+
+Example C18_ex_audit_heads :
+  is_digit 45 = false /\ parse [45; 45; 49; 100] = PErr /\ parse [43; 45; 49; 100] = PErr
+  /\ unit_of [109; 111] = Some Umo /\ unit_of [77; 83] = None /\ unit_of [109; 105; 110] = None
+  /\ time_debug (-5) = [84;105;109;101;40;45;53;41]
+  /\ td_debug 14 (-1500000000) = [84;105;109;101;68;101;108;116;97;32;123;32;109;111;110;116;104;115;58;32;49;52;44;32;
+       105;110;110;101;114;58;32;84;105;109;101;68;101;108;116;97;32;123;32;115;101;99;115;58;32;45;50;44;32;110;97;110;
+       111;115;58;32;53;48;48;48;48;48;48;48;48;32;125;32;125].
+Proof. vm_compute. repeat split. Qed.
+
+Example C18_ex_audit_datetime :
+  (* year -1 at second resolution through strftime(None) and the rule list; the panic outside chrono's range *)
+  unit_code 0 /\ in_i64 (-62198755200) = true /\ -62198755200 <> i64_min
+  /\ dt_format 0 fmt_default (-62198755200)
+     = Ok [45;48;48;48;49;45;48;49;45;48;49;32;48;48;58;48;48;58;48;48;46;48;48;48;48;48;48;48;48;48]
+  /\ dt_parse 0 [45;48;48;48;49;45;48;49;45;48;49;32;48;48;58;48;48;58;48;48;46;48;48;48;48;48;48;48;48;48]
+     = Some (-62198755200)
+  /\ dt_format 0 fmt_default i64_max = Panic UnwrapNone /\ i64_max <> i64_min /\ fields_of_instant 0 i64_max = None
+  /\ in_i64 (i64_min + 1) = true /\ i64_min + 1 <> i64_min
+  /\ dt_format 3 fmt_default (i64_min + 1)
+     = Ok [49;54;55;55;45;48;57;45;50;49;32;48;48;58;49;50;58;52;51;46;49;52;53;50;50;52;49;57;51].
+Proof. vm_compute. repeat split; (discriminate || auto). Qed.
+
+Example C18_ex_audit_time :
+  0 <= 12 <= 23 /\ 0 <= 34 <= 59 /\ 0 <= 56 <= 59 /\ 0 <= 789000000 <= 999999999
+  /\ render fmt_hms_f (tfields 12 34 56 789000000) = [49;50;58;51;52;58;53;54;46;55;56;57;48;48;48;48;48;48]
+  /\ time_parse_with fmt_hms_f [49;50;58;51;52;58;53;54;46;55;56;57;48;48;48;48;48;48] = Some 45296789000000
+  /\ time_parse_with fmt_hms [50;52;58;48;48;58;48;48] = None.
+Proof. vm_compute. repeat split; discriminate. Qed.
+
 Print Assumptions C18_total.
 Print Assumptions C18_scanner_invariant.
 Print Assumptions C18_wellformed.
@@ -273,3 +473,23 @@ Print Assumptions C18_datetime_roundtrip_listed_all_years.
 Print Assumptions C18_earlier_rule_unambiguous.
 Print Assumptions C18_class_abstraction_sound.
 Print Assumptions C18_datetime_roundtrip.
+Print Assumptions C18_unit_tokens.
+Print Assumptions C18_unit_table.
+Print Assumptions C18_wellformed_run.
+Print Assumptions C18_wellformed_ok_iff.
+Print Assumptions C18_wellformed_err_iff.
+Print Assumptions C18_wellformed_iff.
+Print Assumptions C18_wellformed_value_unique.
+Print Assumptions C18_number_overflow_err.
+Print Assumptions C18_single_term.
+Print Assumptions C18_two_nondigit_head.
+Print Assumptions C18_debug_text_is_not_a_duration.
+Print Assumptions C18_strftime_panics_iff.
+Print Assumptions C18_strftime_default_parse_back.
+Print Assumptions C18_strftime_nano_total.
+Print Assumptions C18_nat_text.
+Print Assumptions C18_listed_text_is_not_nat.
+Print Assumptions C18_strftime_nat_iff.
+Print Assumptions C18_time_parse_hms.
+Print Assumptions C18_time_parse_hms_frac.
+Print Assumptions C18_time_parse_leap_second.
